@@ -177,6 +177,13 @@ class DiffXReader(object):
                         % section_id,
                         linenum=linenum)
 
+                if not isinstance(length, int) or length < 0:
+                    raise DiffXParseError(
+                        'Expected the length option for section "%s" to be '
+                        'a non-negative integer, not "%s"'
+                        % (section_id, length),
+                        linenum=linenum)
+
                 if section_id in PREAMBLE_SECTIONS:
                     # This is a preamble section.
                     #
@@ -462,7 +469,15 @@ class DiffXReader(object):
                 validate.
         """
         fp = self._fp
-        content = fp.read(length)
+
+        try:
+            content = fp.read(length)
+        except OverflowError:
+            # The length is larger than anything that could be read.
+            raise DiffXParseError(
+                'The length %s is too large for the section content'
+                % length,
+                linenum=self._linenum)
 
         # First, determine the line endings that we're going to be working
         # with.
